@@ -593,18 +593,23 @@ static var Slice_Iter_Type(var self) {
 static var Slice_Iter_Last(var self) {
   struct Slice* s = self;
   struct Range* r = s->range;
+  int64_t n = Range_Len(r);
+  
+  if (n is 0) { return Terminal; }
   
   if (r->step > 0) {
+    int64_t last = r->start + r->step * (n-1);
     var curr = iter_last(s->iter);
-    for(int64_t i = 0; i < (int64_t)len(s->iter)-r->stop; i++) {
+    for(int64_t i = 0; i < (int64_t)len(s->iter)-1-last; i++) {
       curr = iter_prev(s->iter, curr);
     }
     return curr;
   }
   
   if (r->step < 0) {
+    int64_t last = r->stop-1 + r->step * (n-1);
     var curr = iter_init(s->iter);
-    for(int64_t i = 0; i < r->start; i++) {
+    for(int64_t i = 0; i < last; i++) {
       curr = iter_next(s->iter, curr);
     }
     return curr;
